@@ -2472,6 +2472,15 @@ def fam_U(tier):
             globs = {"gu": 4, "gi": 9} if "uint gu;" in src else {}
             inputs.append(({n: vals[n] for t, n in params}, globs))
         yield {"fam": "U", "desc": f"int-uint-mix;{name}", "src": src + "\n", "units": [{"funcs": [], "entry": "f", "inputs": inputs}]}
+    # conversions between int and uint at the sign edge: negative ints, uints with the top bit set (no arithmetic that could overflow)
+    edge = [(7, 3), (-7, 3), (7, 0xFFFFFFFF), (-1, 0x80000000), (-2147483648, 1), (0, 0x7FFFFFFF)]
+    for name, rt, e in (("uint(a)/u", "uint", "uint(a) / u"), ("a/u", "int", "a / u"), ("u/a", "int", "u / a"), ("a<u", "int", "a < u"), ("a>u", "int", "a > u"), ("u<a", "int", "u < a"),
+                        ("a==u", "int", "a == u"), ("uint(a)<u", "int", "uint(a) < u"), ("int(u)<a", "int", "int(u) < a"), ("int(u)/a", "int", "int(u) / a"), ("uint(a)", "uint", "uint(a)"),
+                        ("int(u)", "int", "int(u)"), ("u%a", "int", "u % a"), ("a%u", "int", "a % u"), ("u-returned-as-int", "int", "u"), ("a-returned-as-uint", "uint", "a"),
+                        ("u-stored-to-int-parameter", "int", "a = u; return a / 2"), ("a-stored-to-uint-parameter", "uint", "u = a; return u / 2"),
+                        ("u-stored-to-int-local", "int", "int si = u; return si / 2"), ("a-stored-to-uint-local", "uint", "uint su = a; return su / 2")):
+        src = f"export function f(int a, uint u) -> {rt} {{ " + (e if "return" in e else "return " + e) + "; }\n"
+        yield {"fam": "U", "desc": f"int-uint-edge;{name}", "src": src, "units": [{"funcs": [], "entry": "f", "inputs": [({"a": a, "u": u}, {}) for a, u in edge if not (a == 0 and ("/ a" in e or "% a" in e))]}]}
 
 
 # =============================================================================================
